@@ -355,7 +355,7 @@ def canon_h_line(l):
     return ' '.join(t[:k + 1] + [c(v) for v in outs])
 
 
-def harness_cfg_compare(configs, seed, unexplained, violations, prop):
+def harness_cfg_compare(configs, seed, unexplained, violations, prop, known=(), known_hits=None):
     """returns (pairs compared, lines compared, skipped pairs)"""
     import hashlib
     from concurrent.futures import ThreadPoolExecutor
@@ -412,6 +412,12 @@ def harness_cfg_compare(configs, seed, unexplained, violations, prop):
                     if la == lb: continue
                     ca, cb = canon_h_line(la.rstrip('\n')), canon_h_line(lb.rstrip('\n'))
                     if ca is None or cb is None or ca == cb: continue
+                    # a listed finding: these operations under these configuration flags (nothing else is excused)
+                    op = la.split()[0] if la.split() else ''
+                    kf = next((k for k in known if op in k.get('harness_ops', ()) and any(fl in j[2] for fl in k.get('config_flags', ()))), None)
+                    if kf is not None:
+                        if known_hits is not None: known_hits.setdefault(kf['id'], [kf, 0, la.strip(), lb.strip(), cname])[1] += 1
+                        continue
                     witness = (la.strip(), lb.strip()); break
             if witness:
                 violations.append(dict(property=prop, kind='result-differs-between-configurations', unit='harness:%s:%s' % (h, witness[0].split()[0]), component=0,
@@ -432,6 +438,7 @@ def run_cfg(prop, tier, seed):
     unit_files = C15_UNITS_THOROUGH if tier == 'thorough' else C15_UNITS_QUICK
     configs = C15_CONFIGS if tier == 'thorough' else C15_CONFIGS[:C15_QUICK_CONFIGS]
     violations, unexplained, lines, samples = [], [], [], []
+    lines_known = []
     pairs = same = differing = 0
     runs_compared = 0
     for uf in unit_files:
@@ -486,8 +493,11 @@ def run_cfg(prop, tier, seed):
                     la, lb = next(((x, y) for x, y in zip(ref.split('\n'), txt.split('\n')) if x != y), ('', ''))
                     violations.append(dict(property=prop, kind='result-differs-between-optimisation-levels', unit=la.split()[1] if len(la.split()) > 1 else '?', component=0,
                                            configuration=opt, default_line=la[:600], configuration_line=lb[:600], replay='unit binary of %s at %s' % (uf, opt)))
-    hpairs, hlines, hskipped = harness_cfg_compare(configs, seed, unexplained, violations, prop)
+    known_hits = {}
+    hpairs, hlines, hskipped = harness_cfg_compare(configs, seed, unexplained, violations, prop, known, known_hits)
     runs_compared += hlines
+    for kid, (kf, n, la, lb, cname) in sorted(known_hits.items()):
+        lines_known.append('KNOWN-FINDING: property=%s %s (%s; %d differing result line(s) this run, e.g. under %s: default "%s" / configuration "%s")' % (prop, kf['what'], kid, n, cname, la[:80], lb[:80]))
     for v in violations[:5]:
         lines.append('VIOLATION property=%s replay=%s' % (prop, write_replay(prop, v)))
     if unexplained and not violations:
@@ -508,6 +518,7 @@ def run_cfg(prop, tier, seed):
           'assumptions': ['the theorems transferred are those of the properties whose unit files are listed; optimisation-level independence is a compiler property and only explored (thorough tier)'],
           'wall_s': round(time.time() - t0, 2), 'violations': nviol}
     json.dump(ev, open(os.path.join(EVID, prop + '.json'), 'w'), indent=1)
+    for l in lines_known: print(l)
     for l in lines: print(l)
     log('%s %s: %d (config,unit) pairs, %d identical, %d differing, %d violation line(s), %.1fs' % (prop, tier, pairs, same, differing, nviol, time.time() - t0))
     return 1 if nviol else 0
